@@ -777,14 +777,15 @@ def raw_reaching_def(name, stmt):
     return None
 
 
-def inline_temporaries(expr, stmt, fn, depth=3):
-    """Substitute local single-reaching-definition temporaries (not parameters) into expr, a few levels deep."""
+def inline_temporaries(expr, stmt, fn, depth=3, only=None):
+    """Substitute local single-reaching-definition temporaries (not parameters) into expr, a few levels deep
+    (restricted to the names in ``only`` when given)."""
     params = set(param_names(fn))
     cur = clone(expr)
     for _ in range(depth):
         env = {}
         for n in ast.walk(cur):
-            if isinstance(n, ast.Name) and isinstance(n.ctx, ast.Load) and n.id not in params and n.id not in env:
+            if isinstance(n, ast.Name) and isinstance(n.ctx, ast.Load) and n.id not in params and n.id not in env and (only is None or n.id in only):
                 v = raw_reaching_def(n.id, stmt)
                 if v is not None:
                     env[n.id] = v
